@@ -12,6 +12,7 @@ import (
 
 	"verif/internal/core"
 	"verif/internal/engine/bounds"
+	"verif/internal/engine/locks"
 	"verif/internal/ir"
 )
 
@@ -978,4 +979,225 @@ func (c *Ctx) sessionSetupRefusesNothing() {
 			"Session."+name+" can return an error that does not come from its own initialisation state ("+joinStr(bad, ", ")+"): it runs after the CONNECT was authenticated and the session store changed, so a CONNECT it turns away gets no CONNACK at all while the store keeps the change (an existing session of that client id is already replaced or rewritten)")
 	}
 	c.R.Floor("session set-up functions (Init, Update)", n, 2)
+}
+
+const ruleG9 = "G9-no-shared-backing"
+
+// noSharedBacking: the slices and maps an object of the library keeps in its fields are its own: no store into a
+// slice- or map-typed field of a library struct takes its value from a package-level variable (directly, re-sliced,
+// or through a phi). A scratch buffer or result list that starts as a view of a package-level slice with spare
+// capacity is appended to in place - by every object that was given the same start.
+func (c *Ctx) noSharedBacking() {
+	c.R.Rule(ruleG9, "for every store of a slice or map value into a field of a struct declared in the library: the value does not originate (through re-slicing, conversion, phi) from a load of a package-level variable. Expected count zero; the stores examined are counted.")
+	n := 0
+	var bad []string
+	var fromGlobal func(v ssa.Value, d int) *ssa.Global
+	fromGlobal = func(v ssa.Value, d int) *ssa.Global {
+		if d > 6 || v == nil {
+			return nil
+		}
+		switch x := v.(type) {
+		case *ssa.UnOp:
+			if x.Op == token.MUL {
+				if g, ok := x.X.(*ssa.Global); ok {
+					return g
+				}
+			}
+		case *ssa.Slice:
+			return fromGlobal(x.X, d+1)
+		case *ssa.ChangeType:
+			return fromGlobal(x.X, d+1)
+		case *ssa.Phi:
+			for _, e := range x.Edges {
+				if g := fromGlobal(e, d+1); g != nil {
+					return g
+				}
+			}
+		}
+		return nil
+	}
+	for _, fn := range c.P.Funcs {
+		if fn.Pkg == nil || !strings.HasPrefix(fn.Pkg.Pkg.Path(), core.ModPath) || fn.Blocks == nil {
+			continue
+		}
+		for _, b := range fn.Blocks {
+			for _, in := range b.Instrs {
+				st, ok := in.(*ssa.Store)
+				if !ok {
+					continue
+				}
+				fa, ok := st.Addr.(*ssa.FieldAddr)
+				if !ok {
+					continue
+				}
+				stt, named := structOfType(fa.X.Type())
+				if named == nil || named.Obj().Pkg() == nil || !strings.HasPrefix(named.Obj().Pkg().Path(), core.ModPath) {
+					continue
+				}
+				switch st.Val.Type().Underlying().(type) {
+				case *types.Slice, *types.Map:
+				default:
+					continue
+				}
+				n++
+				if g := fromGlobal(st.Val, 0); g != nil {
+					bad = append(bad, fmt.Sprintf("%s.%s = %s at %s", named.Obj().Name(), stt.Field(fa.Field).Name(), g.Name(), c.P.InstrPos(st)))
+				}
+			}
+		}
+	}
+	sort.Strings(bad)
+	c.R.Check(len(bad) == 0, ruleG9, "library-structs:slice-and-map-fields-own-their-backing", "", fmt.Sprintf("%d stores of slices / maps into struct fields, none from a package-level variable", n),
+		"an object's slice or map field is given the backing store of a package-level variable ("+joinStr(bad, "; ")+"): every object that starts from it appends into the same array, so one queue's released entries (one ring's wrapped bytes) are overwritten by another's")
+	c.R.Count("stores of slices / maps into library struct fields", n)
+	c.R.Floor("stores of slices / maps into library struct fields", n, 40)
+}
+
+// scratchHoldsTheMessage: when the packet writer encodes into its scratch buffer (the reservation wraps around the end
+// of the ring), the scratch is at least as long as the message - proven at the Encode call from the (re)allocation
+// test on the path (engine B: linear facts). A scratch that is only ever allocated once keeps the size of the first
+// message that wrapped; a later, longer one cannot be encoded and is dropped with an error nobody acts on.
+func (c *Ctx) scratchHoldsTheMessage() {
+	r := c.Roles()
+	fn := r.RingWrite
+	if fn == nil {
+		c.R.Unresolved("packet writer into the outgoing ring")
+		return
+	}
+	var lenCall *ssa.Call
+	for _, call := range ir.Calls(fn) {
+		if cc := call.Common(); cc.IsInvoke() && cc.Method.Name() == "Len" {
+			if cv, ok := call.(*ssa.Call); ok {
+				lenCall = cv
+			}
+		}
+	}
+	if lenCall == nil {
+		c.R.Unresolved("msg.Len() in the packet writer")
+		return
+	}
+	type res struct {
+		pos      string
+		ok       bool
+		contexts int
+	}
+	found := map[ssa.Instruction]*res{}
+	an := bounds.NewAnalyzer(c.P)
+	an.JoinFacts = true
+	an.Probe = func(p *bounds.Probe) {
+		if p.Post || p.Instr == nil || p.Depth() != 0 {
+			return
+		}
+		call, ok := p.Instr.(*ssa.Call)
+		if !ok || !call.Common().IsInvoke() || call.Common().Method.Name() != "Encode" || len(call.Common().Args) != 1 {
+			return
+		}
+		arg := call.Common().Args[0]
+		base := arg
+		for i := 0; i < 4; i++ {
+			if sl, ok := base.(*ssa.Slice); ok {
+				base = sl.X
+				continue
+			}
+			break
+		}
+		ld, ok := base.(*ssa.UnOp)
+		if !ok || ld.Op != token.MUL {
+			return
+		}
+		if _, isField := ld.X.(*ssa.FieldAddr); !isField {
+			return // ring memory handed out by the reservation: B10 / B11
+		}
+		av, ok1 := p.Val(0, arg)
+		lv, ok2 := p.Val(0, lenCall)
+		good := ok1 && ok2 && av.Kind == bounds.KSlice && lv.Kind == bounds.KInt && p.Proves(bounds.GE(av.Len, lv.Int))
+		rr := found[call]
+		if rr == nil {
+			rr = &res{pos: c.P.InstrPos(call), ok: true}
+			found[call] = rr
+		}
+		rr.contexts++
+		if !good {
+			rr.ok = false
+		}
+	}
+	an.Run(fn)
+	n := 0
+	for _, rr := range found {
+		n++
+		c.R.Check(rr.ok, ruleB10, "writeMessage:scratch-holds-the-message", rr.pos, "len(scratch) >= msg.Len() at the Encode into the scratch buffer",
+			"the packet writer encodes into its scratch buffer without having made it at least msg.Len() long on this path: a message that wraps around the end of the ring and is longer than the scratch cannot be encoded - the packet (a PUBREL, a forwarded PUBLISH) is never sent")
+	}
+	c.R.Count("encodes into the writer's scratch buffer", n)
+	c.R.Floor("encodes into the writer's scratch buffer", n, 1)
+}
+
+// connackBeforeStart: the accept function writes the CONNACK straight to the socket; the connection's sender goroutine
+// writes to the same socket once start has run. Every path to start has written the CONNACK before, so the two never
+// write at the same time.
+func (c *Ctx) connackBeforeStart() {
+	r := c.Roles()
+	if !c.Need("accept function (Server method calling Authenticate)", r.Accept, "start", r.Start, "socket writer", r.SockWrite) {
+		return
+	}
+	g := c.acceptGraph()
+	c.precedes(ruleP5, "accept:CONNACK-before-start", g, nodeM(mCallee(r.SockWrite)), nodeM(mCallee(r.Start)), nil,
+		"the CONNACK write precedes start", "start is reachable before the CONNACK was written: the handler's direct write of the CONNACK can land between two chunks the sender goroutine writes for a resumed subscription - the stream is no longer a sequence of whole packets")
+}
+
+// sessionStoreLocking: every update of the session store's map (assignment, delete, replacement) in a method of the
+// in-memory provider runs with the provider's mutex held exclusively; a read lock admits a second writer, and a
+// concurrent map write is a fatal error of the whole process, whoever's connection caused it.
+func (c *Ctx) sessionStoreLocking() {
+	c.R.Rule("G1-guarded-by", "state that the code protects with a mutex somewhere is accessed with that mutex held everywhere; writes exclusively.")
+	lk := c.Locks()
+	n := 0
+	for _, fn := range c.P.Funcs {
+		if fn.Pkg == nil || fn.Pkg.Pkg.Path() != pkgSessions || recvNamed(fn) != "MemProvider" || fn.Blocks == nil {
+			continue
+		}
+		isStore := func(v ssa.Value) bool {
+			ld, ok := ir.SeeThrough(v).(*ssa.UnOp)
+			if !ok || ld.Op != token.MUL {
+				return false
+			}
+			p := ir.PathOf(ld.X)
+			return len(p.Fields) == 1 && p.Owners[0] != nil && p.Owners[0].Obj().Name() == "MemProvider"
+		}
+		for _, b := range fn.Blocks {
+			for _, in := range b.Instrs {
+				upd := false
+				switch x := in.(type) {
+				case *ssa.MapUpdate:
+					upd = isStore(x.Map)
+				case *ssa.Call:
+					if bi, ok := x.Common().Value.(*ssa.Builtin); ok && bi.Name() == "delete" && len(x.Common().Args) > 0 {
+						upd = isStore(x.Common().Args[0])
+					}
+				case *ssa.Store:
+					if _, isMap := x.Val.Type().Underlying().(*types.Map); isMap {
+						p := ir.PathOf(x.Addr)
+						if _, fresh := p.Root.(*ssa.Alloc); !fresh && len(p.Fields) == 1 && p.Owners[0] != nil && p.Owners[0].Obj().Name() == "MemProvider" {
+							upd = true
+						}
+					}
+				}
+				if !upd {
+					continue
+				}
+				n++
+				st, _ := lk.HeldBefore(in)
+				held := false
+				for _, h := range st.Must {
+					if strings.HasPrefix(h.Path.Class(), "sessions.MemProvider.") && h.Mode == locks.Excl {
+						held = true
+					}
+				}
+				c.R.Check(held, "G1-guarded-by", fmt.Sprintf("MemProvider.%s:map-update#%d-under-exclusive-lock", fn.Name(), n), c.P.InstrPos(in), "the session map is updated with the provider's mutex held exclusively",
+					"MemProvider."+fn.Name()+" updates the session map without holding the provider's mutex exclusively: two connections ending (or starting) at the same time write the map concurrently, which the Go runtime answers by killing the process")
+			}
+		}
+	}
+	c.R.Count("updates of the session store's map", n)
+	c.R.Floor("updates of the session store's map (Save, Del, Close)", n, 2)
 }
